@@ -11,7 +11,13 @@ for nm in sorted(os.listdir(d)):
     for p, v in det.items():
         if v["exit"] == 1:
             kinds = sorted({x.split("kind=")[1].split(" ")[0] for x in v["violations"] if "kind=" in x})
-            cell.append(f"{p}: VIOLATION ({', '.join(kinds)[:80]})")
+            obl = [x for x in v["violations"] + v.get("proof_part", []) if "no-failing-input-found" in x or x.startswith("FAILED-OBLIGATION")]
+            how = []
+            if kinds:
+                how.append("failing input: " + ", ".join(kinds)[:80])
+            if obl:
+                how.append("failed obligation: " + obl[0].split("obligation=")[1].split(" ")[0][:70])
+            cell.append(f"{p}: VIOLATION ({'; '.join(how)})")
         else:
             cell.append(f"{p}: not detected (exit {v['exit']})")
     print(f"| {nm} | {m['property']} | {m['needs_to_manifest'][:150]} | {'; '.join(cell)} |")
